@@ -336,10 +336,10 @@ def vivo_trace(tid, rec_events, raw, cfg, mode, check, unit=1e-3):
                 rec['dq8'] = q8_or(q1 - q0, NOQ)
         elif k == 'cancel_end':
             out.append({'k': 'cancel', 'oid': e['oid'], 'pre': e['pre'], 'post': e['status'], 't': int(e['t'])})
-        elif k == 'minute':
-            out.append({'k': 'minute', 'i': int(e['t'])})
+        elif k == 'minute':        # index of the minute in the input series, from the candle's own timestamp
+            out.append({'k': 'minute', 'i': int((e['candle'][0] - raw[0][0]) // MIN) + 1})
         elif k == 'chunk':
-            out.append({'k': 'chunk', 'i': int(e['t']) + 1, 'n': len(e['candles'])})
+            out.append({'k': 'chunk', 'i': int((e['candles'][0][0] - raw[0][0]) // MIN) + 1, 'n': len(e['candles'])})
         elif k in ('minute_end', 'chunk_end'):
             out.append({'k': k})
         elif k == 'liqcheck':
@@ -377,36 +377,50 @@ def _watchdog(seconds):
 
 
 def run_vivo(item):
-    """forked worker: one real research.backtest under the Recorder -> encoded trace + run statistics.
-    item: dict(id, policy, cfg, walk=dict(kind, n, seed, ...), fast, tf, check, [candles])"""
+    """forked worker: one real research.backtest under the Recorder -> encoded trace(s) + run statistics.
+    item: dict(id, policy, cfg, walk=dict(kind, n, seed, ...), fast, tf, check, [candles], [symbols]).
+    With item['symbols'] (several routes on one exchange) one trace per symbol is produced (ids id*4+k); the
+    monitor is per symbol: matching of one symbol never looks at another symbol's orders."""
     from ..session import Recorder, run_backtest, lattice_walk, real_walk
     import signal
     _watchdog(item.get('timeout', 120))
-    w = dict(item['walk'])
-    kind = w.pop('kind')
-    if kind == 'given':
-        raw = np.array(item['candles'], dtype=float)
-    else:
-        raw = (lattice_walk if kind == 'lattice' else real_walk)(**w)
+    syms = item.get('symbols') or [SYM]
+    raws = {}
+    for k, sym in enumerate(syms):
+        w = dict(item['walk'])
+        kind = w.pop('kind')
+        if kind == 'given':
+            raws[sym] = np.array(item['candles'], dtype=float)
+        else:
+            w['seed'] = w['seed'] + 7919 * k
+            if k:
+                w['start'] = w.get('start', 100) + 37 * k
+            raws[sym] = (lattice_walk if kind == 'lattice' else real_walk)(**w)
     cfg = item['cfg']
     rec = Recorder(account=True).install()
     try:
-        routes = [{'symbol': SYM, 'timeframe': item.get('tf', '1m')}]
-        out = run_backtest(item['policy'], cfg, {SYM: raw.copy()}, routes=routes, fast=item['fast'])
+        routes = [{'symbol': sym, 'timeframe': item.get('tf', '1m')} for sym in syms]
+        out = run_backtest(item['policy'], cfg, {sym: raws[sym].copy() for sym in syms}, routes=routes, fast=item['fast'])
     except Hang:
         return None, {'hang': True, 'fills': 0, 'cancels': 0, 'submits': 0, 'markets': 0, 'liq': 0, 'exc': 'hang',
                       'minutes': 0}
     finally:
         signal.alarm(0)
         rec.uninstall()
-    tr = vivo_trace(item['id'], rec.ev, raw, cfg, 'fast' if item['fast'] else 'step', item['check'])
-    kinds = [e['k'] for e in tr['ev']]
-    fills = sum(1 for e in tr['ev'] if e['k'] == 'exec' and e['pre'] == 'ACTIVE' and e['post'] == 'EXECUTED')
+    mode = 'fast' if item['fast'] else 'step'
+    if len(syms) == 1:
+        trs = [vivo_trace(item['id'], rec.ev, raws[syms[0]], cfg, mode, item['check'])]
+    else:
+        trs = [vivo_trace(item['id'] * 4 + k, [e for e in rec.ev if e.get('sym') == sym], raws[sym], cfg, mode, item['check'])
+               for k, sym in enumerate(syms)]
+    evs = [e for t in trs for e in t['ev']]
+    kinds = [e['k'] for e in evs]
+    fills = sum(1 for e in evs if e['k'] == 'exec' and e['pre'] == 'ACTIVE' and e['post'] == 'EXECUTED')
     stats = {'fills': fills, 'cancels': kinds.count('cancel'), 'submits': kinds.count('submit'),
-             'markets': sum(1 for e in tr['ev'] if e['k'] == 'submit' and e['typ'] == 'MARKET'),
+             'markets': sum(1 for e in evs if e['k'] == 'submit' and e['typ'] == 'MARKET'),
              'liq': (out.get('final') or {}).get('liquidations', 0), 'exc': out.get('exc'),
              'minutes': kinds.count('minute') + kinds.count('chunk')}
-    return tr, stats
+    return (trs[0] if len(trs) == 1 else trs), stats
 
 
 # ------------------------------------------------------------------------------------------------
